@@ -188,7 +188,12 @@ def run_case(case):
     at_ = (sum(case["rs"]) // 5) % 4 if "rs" in case else 0
     if oshape is not None:
         kw["oshape"] = vary_seq(oshape, at_)      # list / tuple / int64 array / NumPy ints
-    y = f(x, axes=vary_seq(axes, at_), center=center, norm=norm, **kw)
+    if sum(case["rs"]) % 4 == 1 if "rs" in case else False:
+        # the documented signature (input, oshape, axes, center, norm) called positionally
+        y = f(x, kw.get("oshape"), vary_seq(axes, at_), center, norm)
+        sig += "|positional"
+    else:
+        y = f(x, axes=vary_seq(axes, at_), center=center, norm=norm, **kw)
     ref = O.dft(x0, axes=axes, center=center, inverse=inverse, norm=norm, oshape=oshape)
     tr_axes = range(len(shape)) if axes is None else [a % len(shape) for a in axes]
     nontrivial = any(ref.shape[a] >= 2 for a in tr_axes)
